@@ -28,7 +28,9 @@ StrSites == {"rs", "fs", "subsep", "convfmt", "ofmt", "ors", "ofs", "dyn-regex-m
 OtherSites == {"recursion", "mutual-recursion", "deep-expression", "many-fields", "long-record", "recursion-with-locals",
                "runaway-recursion-with-locals", "field-values", "getline-other-file-wider", "getline-var-in-csv",
                \* a format that was used correctly before is used again with fewer / other arguments (translations are memoised)
-               "format-again-with-fewer-args", "format-again-with-other-kinds"}
+               "format-again-with-fewer-args", "format-again-with-other-kinds",
+               \* a format that ends inside a conversion, after a flag / a width / a precision / a star
+               "format-ends-after-flag", "format-ends-after-width", "format-ends-after-precision", "format-ends-after-star"}
 
 \* numeric value classes: sign, magnitude relative to the field limit and the integer ranges, fractional or not
 NumVals == {"-huge", "-int64", "-int32", "-1", "-0.5", "0", "0.5", "1", "limit-1", "limit", "limit+1", "int32", "int32+1", "int53",
